@@ -32,6 +32,34 @@ func runProbes(c *kit.Ctx) {
 			}
 		}
 	}
+	// the single-node timeout with NodePools left unseen: two pools, pinned pods (every candidate publishes "not all pods
+	// would schedule"), so the loop times out after the first candidate and remembers the other pool for the next run
+	{
+		spec := &worldSpec{Reserved: true,
+			Catalog: []itSpec{{Name: "c0", CPU: 8, Fam: "fc", Offs: []offSpec{{CT: "on-demand", Zone: "z1", Price: 4096, Avail: true}}}},
+			Pools:   []poolSpec{{Name: "pool-a"}, {Name: "pool-b"}}}
+		for i, pool := range []string{"pool-a", "pool-a", "pool-b", "pool-b"} {
+			name := []string{"n0", "n1", "n2", "n3"}[i]
+			spec.Nodes = append(spec.Nodes, nodeSpec{Name: name, Pool: pool, IT: "c0", CT: "on-demand", Zone: "z1", CPU: 2, Init: true,
+				Pods: []podSpec{{Name: "p-" + name + "-0", CPUm: 1000, Pin: true}}})
+		}
+		runSingle(c, genOut{spec: spec, mode: "probe_timeout"})
+	}
+	// a Balanced NodePool whose only possible move saves next to nothing and disrupts everything: the evaluator rejects
+	// it (multi-node: every probe of the binary search is rejected)
+	{
+		heavy := ptr(int32(250000000))
+		spec := &worldSpec{Reserved: true,
+			Catalog: []itSpec{{Name: "c0", CPU: 2, Fam: "fc", Offs: []offSpec{{CT: "on-demand", Zone: "z1", Price: 4096, Avail: true}}},
+				{Name: "t00", CPU: 16, Fam: "fa", Offs: []offSpec{{CT: "on-demand", Zone: "z1", Price: 8191, Avail: true}}}},
+			Pools: []poolSpec{{Name: "pool-a", Policy: "Balanced", CT: []string{"on-demand"}}}}
+		for _, name := range []string{"n0", "n1"} {
+			spec.Nodes = append(spec.Nodes, nodeSpec{Name: name, Pool: "pool-a", IT: "c0", CT: "on-demand", Zone: "z1", CPU: 2, Init: true,
+				Pods: []podSpec{{Name: "p-" + name + "-0", CPUm: 1500, Prio: heavy}}})
+		}
+		runMulti(c, genOut{spec: spec, mode: "probe_balanced"})
+		runSingle(c, genOut{spec: spec, mode: "probe_balanced"})
+	}
 	// an "empty" node that runs a pod whose eviction cost is exactly zero and that can go nowhere else
 	for _, del := range []int64{-134217728, -134217727} {
 		d := del
